@@ -1175,6 +1175,17 @@ pub fn stream(rng: &mut Rng) -> Program {
     if g.rng.chance(1, 5) {
         a.started = vec![SStep::Yield];
     }
+    // the actor stops itself: from a stream item's handler (the n-th item decides that the job is done), or already in
+    // `started()`; no mailbox message need ever arrive afterwards - the stop takes effect all the same (and at once on
+    // an actor that would otherwise sit on a silent stream)
+    let mut self_stop = false;
+    if g.rng.chance(1, 6) {
+        a.item_stop_at = Some(g.rng.range(1, 4) as u32);
+        self_stop = true;
+    } else if g.rng.chance(1, 12) {
+        a.started.push(SStep::CtxStop);
+        self_stop = true;
+    }
     // a builder-configured handler timeout is not applied to stream-attached actors
     if !always && a.entry.builder() && g.rng.chance(1, 3) {
         a.timeout = Some(*g.rng.pick(&[1u64, 2, 5]));
@@ -1215,8 +1226,15 @@ pub fn stream(rng: &mut Rng) -> Program {
         for _ in 0..g.rng.range(0, 6) {
             g.prog.clients[0].push(Op::Yield);
         }
-        g.prog.clients[0].push(Op::Call { slot: 0, script: vec![], cancel: None });
-        g.prog.clients[0].push(Op::Stop { slot: 0 });
+        if self_stop && g.rng.chance(1, 2) {
+            // nobody else stops it: the actor's own request has to get through the always-ready stream
+            for c in g.prog.clients.iter_mut() {
+                c.retain(|op| !matches!(op, Op::Stop { .. }));
+            }
+        } else {
+            g.prog.clients[0].push(Op::Call { slot: 0, script: vec![], cancel: None });
+            g.prog.clients[0].push(Op::Stop { slot: 0 });
+        }
         g.prog.clients[0].push(Op::Await { slot: 0, by_ref: true });
     } else {
         g.gen_clients(&w, &Shape { clients: (1, 3), ops: (2, 8), final_wait_pct: 50 });
@@ -1997,6 +2015,22 @@ pub fn broker(rng: &mut Rng) -> Program {
         a.aux_work = if g.rng.chance(1, 4) { g.rng.range(1, 2) } else { 0 };
         g.prog.actors.push(a);
     }
+    // one case in ten: a subscriber with a tiny bounded mailbox whose handler takes longer than any patience a broker
+    // might have (6 or 11 s of virtual time): the fan-out waits for it, and everybody after it in the broker's table
+    // still gets every publication, exactly once and in the common order (virtual time only: not on the L2 engine)
+    if !crate::oracle::ENGINE_MT && nsubs >= 2 && g.rng.chance(1, 10) {
+        let slow = g.rng.below(nsubs as u64) as usize;
+        let t = g.rng.below(ntopics as u64) as u8;
+        for (i, a) in g.prog.actors.iter_mut().enumerate() {
+            if i == slow {
+                a.mailbox = Some(g.rng.range(0, 1) as usize);
+                a.aux_work = *g.rng.pick(&[6000u64, 11000]);
+            }
+            if !a.started.iter().any(|s| matches!(s, SStep::Subscribe(_))) {
+                a.started.push(SStep::Subscribe(t));
+            }
+        }
+    }
     g.layout(nclients);
     // client 0: subscription management
     let k = g.rng.range(2, 8);
@@ -2018,6 +2052,16 @@ pub fn broker(rng: &mut Rng) -> Program {
                 }
             }
             9 => Op::Sleep(g.rng.range(0, 3)),
+            // the subscriber's only strong handle becomes a Caller or a Sender (the client keeps that until the end):
+            // the actor is as alive as before and keeps receiving publications
+            10 if alive && g.prog.actors[s as usize].holders.len() == 1 => {
+                let a = g.sk[0][s as usize].a;
+                let to_caller = g.rng.chance(1, 2);
+                g.prog.clients[0].push(if to_caller { Op::ToCaller { slot: s } } else { Op::ToSender { slot: s } });
+                g.sk[0].push(SK { hk: if to_caller { Hk::Caller } else { Hk::Sender }, a });
+                g.sk[0][s as usize] = SK { hk: Hk::None, a: usize::MAX };
+                Op::Drop { slot: s }
+            }
             _ => Op::Yield,
         };
         g.prog.clients[0].push(op);
